@@ -316,6 +316,8 @@ FIXED = [
     ["x = g(g(x))", "e(x)"],
     ["a, (b, c) = 1, (2, 3)", "e(a + b + c)"],
     ["a, *b = array(1, 2, 3)", "e(a)"],
+    ["w, *r, y, z = 40, 41, 42, 43, 44", "e(w)", "e(y)", "e(z)"],
+    ["t = (1, 2, 3, 4)", "*r, y, z = t", "e(y * 10 + z)", "a, *r2, b, c, d = 5, 6, 7, 8, 9, 10", "e(b * 100 + c * 10 + d)"],
     ["while c0():", "    pass", "e(1)"],
     ["if True:", "    e(1)", "else:", "    e(2)"],
     ["while False:", "    e(1)", "e(2)"],
